@@ -87,12 +87,20 @@ def tree_event(sim, name, extra=None):
 
 
 RESOLVER_CALLS = []
+LINE_MODES = (4, 5)      # REB_COLLISION_LINE, REB_COLLISION_LINETREE
 
 
 def resolver(sp, c):
     # every particle has radius 0 and the lattice keeps them apart: nothing ever collides, so any call names a particle that
     # should not take part in the search (e.g. one that was flagged for removal)
-    RESOLVER_CALLS.append((c.p1, c.p2))
+    ps = sp.contents.particles
+    a, b = ps[c.p1], ps[c.p2]
+    nan = any(v != v for v in (a.x, a.y, a.z, b.x, b.y, b.z))
+    apart = nan or (a.x, a.y, a.z) != (b.x, b.y, b.z)
+    # the line searches legitimately report two zero-radius particles whose lattice paths cross exactly (distance 0 = sum of radii):
+    # for them only a pair that names a flagged (NaN) particle is wrong; for the point searches any pair of distinct sites is
+    if nan or (apart and sp.contents._collision not in LINE_MODES):
+        RESOLVER_CALLS.append((c.p1, c.p2))
     return 0
 
 
